@@ -487,25 +487,25 @@ def edit_targets():
     D = filters.DataEdit
     S, V, L, M = 'str', 'val', 'strs', 'data'
     return [
-        dict(name='editAdd', doc='DataEdit.add', node=find_edit(D.add),
+        dict(name='editAdd', doc='DataEdit.add', node=lambda: find_edit(D.add),
              params=[('data', 'Data'), ('kwargs', 'Data')], names={'data': ('data', M), 'kwargs': ('kwargs', M)}),
         dict(name='editAddOutput', doc='DataEdit.add_output (`out`: the source block\'s output at the call)',
-             node=find_edit(D.add_output), params=[('data', 'Data'), ('key', 'String'), ('out', 'Val')],
+             node=lambda: find_edit(D.add_output), params=[('data', 'Data'), ('key', 'String'), ('out', 'Val')],
              names={'data': ('data', M), 'key': ('key', S), 'src.block.output': ('out', V)}),
-        dict(name='editCopy', doc='DataEdit.copy', node=find_edit(D.copy),
+        dict(name='editCopy', doc='DataEdit.copy', node=lambda: find_edit(D.copy),
              params=[('data', 'Data'), ('src', 'String'), ('dst', 'String')],
              names={'data': ('data', M), 'src': ('src', S), 'dst': ('dst', S)}),
-        dict(name='editDelete', doc='DataEdit.delete', node=find_edit(D.delete),
+        dict(name='editDelete', doc='DataEdit.delete', node=lambda: find_edit(D.delete),
              params=[('data', 'Data'), ('args', 'List String')], names={'data': ('data', M), 'args': ('args', L)}),
-        dict(name='editModify', doc='DataEdit.modify (`func`: the user\'s function)', node=find_edit(D.modify),
+        dict(name='editModify', doc='DataEdit.modify (`func`: the user\'s function)', node=lambda: find_edit(D.modify),
              params=[('data', 'Data'), ('key', 'String'), ('func', 'Val → ModRes')],
              names={'data': ('data', M), 'key': ('key', S), 'func': ('func', 'modfunc')}),
-        dict(name='editPermit', doc='DataEdit.permit', node=find_edit(D.permit),
+        dict(name='editPermit', doc='DataEdit.permit', node=lambda: find_edit(D.permit),
              params=[('data', 'Data'), ('args', 'List String')], names={'data': ('data', M), 'args': ('args', L)}),
-        dict(name='editRename', doc='DataEdit.rename', node=find_edit(D.rename),
+        dict(name='editRename', doc='DataEdit.rename', node=lambda: find_edit(D.rename),
              params=[('data', 'Data'), ('src', 'String'), ('dst', 'String')],
              names={'data': ('data', M), 'src': ('src', S), 'dst': ('dst', S)}),
-        dict(name='editSetdefault', doc='DataEdit.setdefault', node=find_edit(D.setdefault),
+        dict(name='editSetdefault', doc='DataEdit.setdefault', node=lambda: find_edit(D.setdefault),
              params=[('data', 'Data'), ('kwargs', 'Data')], names={'data': ('data', M), 'kwargs': ('kwargs', M)}),
     ]
 
@@ -532,13 +532,13 @@ def main_edit(outfile):
          'def mrIsDelete : ModRes → Bool | .delete => true | _ => false',
          '/-- the object returned by the user\'s function, when it is neither of the two markers -/',
          'def mrVal : ModRes → Val | .value v => v | _ => Val.none', '']
-    for t in edit_targets():
-        body = TrEdit(t).function(t['node'])
+    def translate(t):
+        body = TrEdit(t).function(t['node']())
         params = ' '.join(f'({n} : {ty})' for n, ty in t['params'])
-        L.append(f"/-- translated from `{t['doc']}`: the function appended to `_editlist` -/")
-        L.append(f"def {t['name']} {params} : Except Stop Data :=")
-        L.append(body)
-        L.append('')
+        return f"def {t['name']} {params} : Except Stop Data :=\n{body}"
+
+    for t in edit_targets():
+        emit(L, t, translate, ': the function appended to `_editlist`')
     L.append('end Edzed.Gen.TrF')
     write_if_changed(outfile, '\n'.join(L) + '\n')
 
@@ -615,70 +615,90 @@ def find_raise_test(fn, exc):
 def targets():
     ordp = [('lt', 'α → α → Bool'), ('le', 'α → α → Bool')]
     return [
-        dict(name='cmpOpen', doc='timeinterval._Interval._cmp_open', node=fn_ast(timeinterval._Interval._cmp_open),
+        dict(name='cmpOpen', doc='timeinterval._Interval._cmp_open', node=lambda: fn_ast(timeinterval._Interval._cmp_open),
              generic=True, params=ordp + [('low', 'α'), ('item', 'α'), ('high', 'α')],
              names={'low': ('low', 'ord'), 'item': ('item', 'ord'), 'high': ('high', 'ord')}),
-        dict(name='cmpClosed', doc='timeinterval._Interval._cmp_closed', node=fn_ast(timeinterval._Interval._cmp_closed),
+        dict(name='cmpClosed', doc='timeinterval._Interval._cmp_closed', node=lambda: fn_ast(timeinterval._Interval._cmp_closed),
              generic=True, params=ordp + [('low', 'α'), ('item', 'α'), ('high', 'α')],
              names={'low': ('low', 'ord'), 'item': ('item', 'ord'), 'high': ('high', 'ord')}),
         dict(name='cmpNoWrap', doc='timeinterval.DateTimeInterval._cmp_open',
-             node=fn_ast(timeinterval.DateTimeInterval._cmp_open),
+             node=lambda: fn_ast(timeinterval.DateTimeInterval._cmp_open),
              generic=True, params=ordp + [('low', 'α'), ('item', 'α'), ('high', 'α')],
              names={'low': ('low', 'ord'), 'item': ('item', 'ord'), 'high': ('high', 'ord')}),
-        dict(name='edgeCall', doc='filters.Edge.__call__', node=fn_ast(filters.Edge.__call__),
+        dict(name='edgeCall', doc='filters.Edge.__call__', node=lambda: fn_ast(filters.Edge.__call__),
              params=[('rise', 'Bool'), ('fall', 'Bool'), ('urise', 'Bool'), ('ufall', 'Bool'),
                      ('previous', 'Val'), ('value', 'Val')],
              names={'self._rise': ('rise', 'bool'), 'self._fall': ('fall', 'bool'), 'self._urise': ('urise', 'bool'),
                     'self._ufall': ('ufall', 'bool'), "data['previous']": ('previous', 'val'),
                     "data['value']": ('value', 'val')}),
-        dict(name='compareCalc', doc='cblocks.Compare.calc_output', node=fn_ast(cblocks.Compare.calc_output),
+        dict(name='compareCalc', doc='cblocks.Compare.calc_output', node=lambda: fn_ast(cblocks.Compare.calc_output),
              params=[('low', 'Rat'), ('high', 'Rat'), ('own', 'Val'), ('x', 'Rat')],
              names={'self._low': ('low', 'rat'), 'self._high': ('high', 'rat'), 'self._output': ('own', 'val'),
                     "self._in['_'][0]": ('x', 'rat')}),
-        dict(name='overrideCalc', doc='cblocks.Override.calc_output', node=fn_ast(cblocks.Override.calc_output),
+        dict(name='overrideCalc', doc='cblocks.Override.calc_output', node=lambda: fn_ast(cblocks.Override.calc_output),
              params=[('null', 'Val'), ('input', 'Val'), ('override', 'Val')],
              names={'self._null': ('null', 'val'), 'self._in.input': ('input', 'val'),
                     'self._in.override': ('override', 'val')}),
-        dict(name='xorFunc', doc='cblocks.Xor: func=lambda inputs: …', node=find_lambda(cblocks.Xor, 'func'),
+        dict(name='xorFunc', doc='cblocks.Xor: func=lambda inputs: …', node=lambda: find_lambda(cblocks.Xor, 'func'),
              params=[('inputs', 'List Val')], names={'inputs': ('inputs', 'vals')}),
         dict(name='counterSetmod', doc='sblocks1.Counter._setmod (the value stored and returned)',
-             node=fn_ast(sblocks1.Counter._setmod), ignore=('set_output',),
+             node=lambda: fn_ast(sblocks1.Counter._setmod), ignore=('set_output',),
              params=[('mod', 'Option Rat'), ('value', 'Rat')],
              names={'self._mod': ('mod', 'optrat'), 'value': ('value', 'rat')}),
         dict(name='counterInc', doc='sblocks1.Counter._event_inc (the value returned)',
-             node=fn_ast(sblocks1.Counter._event_inc), defaults={'amount': 'amount'},
+             node=lambda: fn_ast(sblocks1.Counter._event_inc), defaults={'amount': 'amount'},
              calls={'self._setmod': ('counterSetmod mod', 'rat', ['rat'])},
              params=[('mod', 'Option Rat'), ('output', 'Rat'), ('amount', 'Option Rat')],
              names={'self._output': ('output', 'rat')}),
         dict(name='counterDec', doc='sblocks1.Counter._event_dec (the value returned)',
-             node=fn_ast(sblocks1.Counter._event_dec), defaults={'amount': 'amount'},
+             node=lambda: fn_ast(sblocks1.Counter._event_dec), defaults={'amount': 'amount'},
              calls={'self._setmod': ('counterSetmod mod', 'rat', ['rat'])},
              params=[('mod', 'Option Rat'), ('output', 'Rat'), ('amount', 'Option Rat')],
              names={'self._output': ('output', 'rat')}),
         dict(name='counterPut', doc='sblocks1.Counter._event_put (the value returned; `value` has no default)',
-             node=fn_ast(sblocks1.Counter._event_put), required=('value',),
+             node=lambda: fn_ast(sblocks1.Counter._event_put), required=('value',),
              calls={'self._setmod': ('counterSetmod mod', 'rat', ['rat'])},
              params=[('mod', 'Option Rat'), ('value', 'Rat')], names={'value': ('value', 'rat')}),
         dict(name='counterReset', doc='sblocks1.Counter._event_reset (the value returned)',
-             node=fn_ast(sblocks1.Counter._event_reset),
+             node=lambda: fn_ast(sblocks1.Counter._event_reset),
              calls={'self._setmod': ('counterSetmod mod', 'rat', ['rat'])},
              params=[('mod', 'Option Rat'), ('initdef', 'Rat')], names={'self.initdef': ('initdef', 'rat')}),
         dict(name='counterRefusesModulo', doc='sblocks1.Counter.__init__: if …: raise ValueError("modulo must not be zero")',
-             node=find_raise_test(sblocks1.Counter.__init__, 'ValueError'),
+             node=lambda: find_raise_test(sblocks1.Counter.__init__, 'ValueError'),
              params=[('modulo', 'Option Rat')], names={'modulo': ('modulo', 'optrat')}),
         dict(name='evalLimit', doc='simulator.Circuit._simulate: eval_limit = …',
-             node=find_local_assign(simulator.Circuit._simulate, 'eval_limit'),
+             node=lambda: find_local_assign(simulator.Circuit._simulate, 'eval_limit'),
              params=[('maxEvalsPerBlock', 'Nat'), ('nBlocks', 'Nat')],
              names={'_MAX_EVALS_PER_BLOCK': ('maxEvalsPerBlock', 'nat'), 'len(self._blocks)': ('nBlocks', 'nat')}),
-        dict(name='notFromUndef', doc='filters.not_from_undef', node=fn_ast(filters.not_from_undef),
+        dict(name='notFromUndef', doc='filters.not_from_undef', node=lambda: fn_ast(filters.not_from_undef),
              params=[('data', 'Data')], names={'data': ('data', 'data')}),
-        dict(name='isReady', doc='simulator.Circuit.is_ready', node=fn_ast(simulator.Circuit.is_ready),
+        dict(name='isReady', doc='simulator.Circuit.is_ready', node=lambda: fn_ast(simulator.Circuit.is_ready),
              params=[('simtask', 'Option Unit'), ('error', 'Option Unit')],
              names={'self._simtask': ('simtask', 'optx'), 'self._error': ('error', 'optx')}),
         dict(name='extSource', doc='block.ExtEvent.__init__: self._source = …',
-             node=find_assign_value(block.ExtEvent.__init__, '_source'),
+             node=lambda: find_assign_value(block.ExtEvent.__init__, '_source'),
              params=[('source', 'String')], names={'source': ('source', 'str')}),
     ]
+
+
+def emit(L, t, translate, header):
+    """one target; a function outside the supported subset is OMITTED (with a comment), so that exactly the
+    theorems that mention it stop compiling -- the checks of the other properties are not disturbed"""
+    try:
+        text = translate(t)
+    except Exception as err:     # Untranslatable, or a finder that no longer finds its function
+        L.append(f"-- UNTRANSLATABLE `{t['doc']}`: definition `{t['name']}` omitted ({' '.join(str(err).split())[:200]})")
+        L.append('')
+        print(f"UNTRANSLATABLE {t['name']} ({t['doc']}): {err}")
+        return
+    L.append(f"/-- translated from `{t['doc']}`{header} -/")
+    L.append(text)
+    L.append('')
+
+
+def lazy(targets_fn):
+    """the target lists evaluate `fn_ast`/`find_…` eagerly; a finder that fails must only lose its own target"""
+    return targets_fn()
 
 
 def main(outfile):
@@ -686,16 +706,17 @@ def main(outfile):
          'import EdzedModel.Basic.Val', '', 'namespace Edzed.Gen.Tr', '',
          "/-- Python's `a % m` on numbers (floored) -/",
          'def pyMod (a m : Rat) : Rat := a - m * ((a / m).floor : Int)', '']
-    for t in targets():
+
+    def translate(t):
         tr = Tr(t)
-        body, rty = tr.function(t['node'])
+        body, rty = tr.function(t['node']())
         params = ' '.join(f'({n} : {ty})' for n, ty in t['params'])
         generic = '{α : Type} ' if t.get('generic') else ''
         rt = {'nat': 'Nat'}.get(rty, LEAN_TYPE.get(rty, rty))
-        L.append(f"/-- translated from `{t['doc']}` -/")
-        L.append(f"def {t['name']} {generic}{params} : {rt} :=")
-        L.append(body)
-        L.append('')
+        return f"def {t['name']} {generic}{params} : {rt} :=\n{body}"
+
+    for t in targets():
+        emit(L, t, translate, '')
     L.append('end Edzed.Gen.Tr')
     write_if_changed(outfile, '\n'.join(L) + '\n')
     main_edit(os.path.join(os.path.dirname(outfile), 'TranslatedFilters.lean'))
